@@ -73,6 +73,8 @@ def run(tier, seed, replay=None):
                 continue
             stats["model_diffs"] += r.msum[3]
             found = False
+            known17 = {f["key"]: f for f in C.findings_for(PID) if "key" in f}
+            stalled_known = set()
             for cid in r.order:
                 c = r.cases[cid]
                 for i, (s, res) in enumerate(zip(c["steps"], c["results"])):
@@ -81,13 +83,21 @@ def run(tier, seed, replay=None):
                         t = s.split()
                         distinct.add((t[2], int(t[3])))
                     first = res.split()[0] if res else "NOREPLY"
+                    if first == "TIMEOUT" and T.stall_signature(s) in known17:
+                        # a listed hang (classified by the shape of the command): the instance is dead, the case ends here
+                        fd = known17[T.stall_signature(s)]
+                        if fd not in out.known_confirmed:
+                            out.known_confirmed.append(fd)
+                        stalled_known.add(cid)
+                        break
                     if first in BAD and not found:
                         found = True
-                        out.violation(T.replay_of(PID, r, {"case": cid, "step": i + 1, "signature": t[2] + "/" + first,
+                        sig17 = T.stall_signature(s) if first == "TIMEOUT" else t[2] + "/" + first
+                        out.violation(T.replay_of(PID, r, {"case": cid, "step": i + 1, "signature": sig17,
                                                            "text": "outcome %s" % res[:100],
                                                            "reason": "the command crashed the handler, hung, or got no reply"}))
             if not found:
-                for case, (step, kind, detail) in list(r.mdiffs.items())[:1]:
+                for case, (step, kind, detail) in [kv for kv in r.mdiffs.items() if kv[0] not in stalled_known][:1]:
                     out.violation(T.replay_of(PID, r, {"case": case, "step": step, "detail": detail},
                                               {"broken": "correspondence model/implementation on hostile commands",
                                                "theorems_no_longer_about_the_code": pf["theorems"]}), nofail=True)
